@@ -205,6 +205,8 @@ class Ev:
         return str(v)
 
     def iterate(self, v: Any) -> list:
+        if isinstance(v, ModelIter):
+            return list(v)  # whatever is left of it
         if isinstance(v, Obj):
             m = self.dunder(v, "__iter__")
             if m is None:
@@ -556,7 +558,16 @@ class Ev:
                 except (ValueError, TypeError, OverflowError) as err:
                     raise _ModelRaise(type(err).__name__) from err
             if f.id == "iter":
-                return self.iterate(self.ev(n.args[0]))
+                # a real iterator: a loop that breaks out of it and comes back later goes on where it stopped
+                return ModelIter(self.iterate(self.ev(n.args[0])))
+            if f.id == "next" and n.args and isinstance(self.ev(n.args[0]), ModelIter):
+                it = self.ev(n.args[0])
+                try:
+                    return next(it)
+                except StopIteration:
+                    if len(n.args) > 1:
+                        return self.ev(n.args[1])
+                    raise _ModelRaise("StopIteration") from None
             if f.id in ("map", "filter") and len(n.args) == 2:
                 fn_node = n.args[0]
                 seq = self.iterate(self.ev(n.args[1]))
@@ -726,7 +737,8 @@ class Ev:
                 self.run(s.body if self.truth(self.ev(s.test)) else s.orelse)
             elif isinstance(s, ast.For):
                 broke = False
-                for item in self.iterate(self.ev(s.iter)):
+                src = self.ev(s.iter)
+                for item in (src if isinstance(src, ModelIter) else self.iterate(src)):
                     self.assign(s.target, item)
                     try:
                         self.run(s.body)
@@ -1036,6 +1048,19 @@ class CtxManager:
 
     def exit(self) -> None:
         self.ev.run(self.post)
+
+
+class ModelIter:
+    """iter(x) on the model: consumed lazily and resumable, as Python's iterators are."""
+
+    def __init__(self, items: list):
+        self._it = iter(list(items))
+
+    def __iter__(self) -> "ModelIter":
+        return self
+
+    def __next__(self) -> Any:
+        return next(self._it)
 
 
 class NullCtx(CtxManager):
